@@ -368,7 +368,7 @@ def run(run: Run) -> int:
     stage_atoms(run, pt, orc, tl, pools, quick)
     stage_ions(run, pt, orc, tl, pools, quick)
     run_cases(run, pt, orc, tl, FIXED_CASES, "neutron_scattering", tag="fixed")
-    n = 2500 if quick else 100000
+    n = 2500 if quick else 300000
     cases = []
     while len(cases) < n:
         c = gen_case(run.rng, pools)
